@@ -257,7 +257,7 @@ def work(item, tier, seed):
                         res.notes["proposals_rejected_at_u_1e-30"] = res.notes.get("proposals_rejected_at_u_1e-30", 0) + 1
             # ---- reference
             try:
-                alpha_ref, y_expected, extra = _reference(kern, cfg, prog, args, paths, den, x_flat, x_ref, x_plp, y_flat, prop_events, res, sig, det)
+                alpha_ref, y_expected, extra = _reference(kern, cfg, prog, args, paths, den, x_flat, x_ref, x_plp, y_flat, prop_events, res, sig, det, unobserved=(kern != "mh" and not changed and len(pieces) == 1))
             except _Skip as sk:
                 res.notes[str(sk)] = res.notes.get(str(sk), 0) + 1
                 return
@@ -363,7 +363,7 @@ def _all_states(res, prog, args, fn, jargs, observed, paths):
     return out
 
 
-def _reference(kern, cfg, prog, args, paths, den, x_flat, x_ref, x_plp, y_flat, prop_events, res, sig, det):
+def _reference(kern, cfg, prog, args, paths, den, x_flat, x_ref, x_plp, y_flat, prop_events, res, sig, det, unobserved=False):
     """alpha_ref for the proposal that produced y (as seen with the uniform at ~0)."""
     from mc import ref as R
     from mc import gfi
@@ -391,6 +391,41 @@ def _reference(kern, cfg, prog, args, paths, den, x_flat, x_ref, x_plp, y_flat, 
         res.violate(PROP, f"noise-not-per-coordinate:{sig}", coordinates=len(x), standard_normal_draws=n_noise, **det)
         raise _Skip("noise_not_per_coordinate")
     noise = np.concatenate([np.asarray(ev.value, np.float64).reshape(-1) for ev in prop_events])
+    if unobserved:
+        # rejected even at u = 1e-30: the proposed state never shows in any output.  It is rebuilt from
+        # the scripted noise by the float64 reference (every assignment of draws to coordinates) and the
+        # reference acceptance probability must then be (numerically) zero for at least one assignment.
+        alphas = []
+        for perm in set(itertools.permutations(noise.tolist())):
+            z = np.asarray(perm)
+            if kern == "mala":
+                tau = float(cfg)
+                gx = _grad(f, x)
+                yy = x + 0.5 * tau**2 * gx + tau * z
+                with np.errstate(all="ignore"):
+                    fy = f(yy)
+                    if not np.isfinite(fy):
+                        alphas.append(0.0)
+                        continue
+                    gy = _grad(f, yy)
+                    la = fy - f(x) + _norm_logpdf(x, yy + 0.5 * tau**2 * gy, tau) - _norm_logpdf(yy, x + 0.5 * tau**2 * gx, tau)
+            else:
+                tau, Ls = float(cfg[0]), cfg[1]
+                q, p = x.copy(), z.copy()
+                with np.errstate(all="ignore"):
+                    g = _grad(f, q)
+                    for _ in range(Ls):
+                        p = p + 0.5 * tau * g
+                        q = q + tau * p
+                        g = _grad(f, q)
+                        p = p + 0.5 * tau * g
+                    la = -((-f(q) + 0.5 * float(np.sum(p**2))) - (-f(x) + 0.5 * float(np.sum(z**2))))
+            alphas.append(0.0 if not np.isfinite(la) else float(min(1.0, np.exp(la))))
+        extra["alpha_reference_for_unobserved_proposal"] = alphas
+        if min(alphas) > 1e-6:
+            res.violate(PROP, f"acceptance-probability:{sig}", alpha_applied=0.0, alpha_reference=min(alphas), scripted_noise=noise, current=x, **dict(det, **extra))
+        res.notes["gradient_proposals_rejected_at_u_1e-30"] = res.notes.get("gradient_proposals_rejected_at_u_1e-30", 0) + 1
+        return None, None, extra
     if kern == "mala":
         tau = float(cfg)
         gx = _grad(f, x)
